@@ -126,6 +126,10 @@ func c10Probes() []c10Probe {
 		call("int_list", iv(), n(7)), call("ilist", n(7), iv(), n(0)), call("float_list", fv(), ref.Fl(0.5)), call("flist", ref.Fl(1.5), fv()),
 		call("len", call("list", iv(), n(2), n(3))), call("len", call("int_list", iv())), call("len", call("float_list", fv(), ref.Fl(0.5))),
 		ref.Idx(call("list", iv(), n(2), n(3)), n(0)), ref.Idx(call("list", n(1), n(2), n(3)), n(1)), ref.Idx(call("int_list", n(4), iv()), n(1)), ref.Idx(call("float_list", fv(), ref.Fl(0.5)), n(0)), ref.Idx(call("flist", ref.Fl(0.5), ref.Fl(1.5)), n(1)),
+		// numeric text handed to list(): whether it is kept as text or read as a
+		// number, the element read back with float() / int() is the argument
+		call("float", ref.Idx(call("list", v()), n(0))), call("float", ref.Idx(call("list", v(), v()), n(1))), call("float", ref.Idx(call("list", v(), s("2.5")), n(0))),
+		call("int", ref.Idx(call("list", v(), s("7")), n(0))), call("len", call("list", v(), v(), v())), call("float", ref.Idx(call("list", s("0.25"), v()), n(1))),
 		call("l2_distance", call("list", iv(), n(0)), call("list", n(3), n(4))),
 		call("l2_distance", call("list", n(0), n(0)), call("list", n(3), n(4))),
 		call("l2_distance", call("float_list", fv(), ref.Fl(0.5)), call("float_list", ref.Fl(1.5), ref.Fl(0.5))),
